@@ -72,6 +72,7 @@ def task_tiny(a, env):
     big = [N * 2**64 + 5, -(N * 2**64) - 5, 2**521 - 1, -(2**300) + 3]
     rg = rng(env, "tiny-mul-%d" % cfg[0])
     big += [rg.getrandbits(512), -rg.getrandbits(512)]
+    big += [2**61 - 1 + 1, 2**61 - 1 + 3, 2 + 2 * (2**61 - 1), -(2**61 - 1) - 2]  # equal hash() as 1, 3, 2, -2
     ns = list(range(-2 * N - 1, 3 * N + 2)) + big
     for A in pts:
         if r.full():
